@@ -27,6 +27,7 @@ def QOk (W : World) (cm : List Int) : Req → Prop
   | .saveFrontier f => SoundSnap W cm f
   | .delRec _ => True
   | .zrem _ => True
+  | .delFrontier => True
   | _ => False
 
 theorem QOk.mono {W : World} {cm cm' : List Int} {q : Req} (h : QOk W cm q)
@@ -78,16 +79,31 @@ theorem start_sound {W : World} {s : Sys} (hi : SysInv W s) (db : Nat) (rid : By
     rw [hroot] at h
     dsimp only at h
     have hro : root.2.1 = W.e 0 := hi.root root hroot
+    have hpurge : ∀ q ∈ purgeReqs s.ns W.ids, QOk W s.committed q := by
+      intro q hq
+      unfold purgeReqs at hq
+      rcases List.mem_append.mp hq with hq | hq
+      · rcases List.mem_append.mp hq with hq | hq
+        · obtain ⟨k, _, rfl⟩ := List.mem_map.mp hq; trivial
+        · split at hq
+          · simp at hq
+          · have := List.mem_singleton.mp hq; rw [this]; trivial
+      · have := List.mem_singleton.mp hq; rw [this]; trivial
     have hrootPt : ∀ (db : Nat) (rid : Bytes) (off seq : Int) (reqs : List Req),
-        (rootPoint root, ([] : List Req)) = (Start.point db rid off seq, reqs) →
+        restartFromRoot s.ns W.ids root = (Start.point db rid off seq, reqs) →
         (0 ≤ seq ∧ off = W.e seq ∧ PrefixCommitted s.committed seq) ∧ (∀ q ∈ reqs, QOk W s.committed q) := by
       intro db rid off seq reqs he
-      simp only [rootPoint, Prod.mk.injEq, Start.point.injEq] at he
+      simp only [restartFromRoot, rootPoint, Prod.mk.injEq, Start.point.injEq] at he
       obtain ⟨⟨_, _, h3, h4⟩, h5⟩ := he
-      subst h3 h4 h5
-      exact ⟨⟨by omega, hro, fun j h1 h2 => by omega⟩, by simp⟩
+      subst h3 h4
+      refine ⟨⟨by omega, hro, fun j h1 h2 => by omega⟩, ?_⟩
+      intro q hq
+      rw [← h5] at hq
+      split at hq
+      · exact hpurge q hq
+      · simp at hq
     cases hrb : rebuild W.ver (loadSnapshot s.ns W.ids) ((startRecords s.ns W.ids).map (·.r)) with
-    | error m => rw [hrb] at h; exact absurd (congrArg Prod.fst h) (by simp)
+    | error m => rw [hrb] at h; exact hrootPt _ _ _ _ _ h
     | ok res =>
       rw [hrb] at h
       cases res with
@@ -239,7 +255,6 @@ theorem step_inv {W : World} {s : Sys} (hi : SysInv W s) (st : Step) : SysInv W 
       cases hst : startFrontier W.ver s.ns W.ids with
       | mk st reqs =>
         cases st with
-        | gap m => exact hi
         | empty => exact hi
         | point db rid off seq =>
           simp only
@@ -329,6 +344,9 @@ theorem step_inv {W : World} {s : Sys} (hi : SysInv W s) (st : Step) : SysInv W 
         simp only [applyReq] at hj
         exact hi.jr j (List.mem_filter.mp hj).1
       | zrem ks => exact ⟨hi.root, hi.jr, hi.fr, hi.co, hrest⟩
+      | delFrontier =>
+        refine ⟨hi.root, hi.jr, ?_, hi.co, hrest⟩
+        intro f hf; simp [applyReq] at hf
       | commit r => exact absurd hqok (by simp [QOk])
       | commitLatest r => exact absurd hqok (by simp [QOk])
   | crash =>
